@@ -8,6 +8,7 @@
            [6; bytes...]             Server.Publish of the PUBLISH packet
            [7]                       Server.Close
            [8; q; retain; tlen; topic...; payload...]  Server.Publish of a message built with the setters
+           [9; c; bytes...]          the client of connection c writes the bytes and closes at once
    observation per event, canonical: for every connection in ascending order its packets
    ([1; c; len; bytes...]; runs of consecutive PUBLISH packets sorted, since the fan-out order is
    the iteration order of Go maps) and its closure ([2; c]); then the in-process calls sorted
@@ -50,6 +51,14 @@ Definition b_event (s : bstate) (ev : list N) : bstate * list out :=
   | 5 :: sub :: topic => (mkBS (srv_unsubscribe (bs_br s) sub topic) (bs_pend s) (bs_buf s), [])
   | 6 :: b => let '(br1, o) := srv_publish (bs_br s) b in (mkBS br1 (bs_pend s) (bs_buf s), o)
   | [7] => let '(br1, o) := srv_close (bs_br s) in (mkBS br1 (bs_pend s) (bs_buf s), o)
+  | 9 :: c :: b =>
+      (* the client writes the bytes and closes at once: everything complete is processed, then the connection ends
+         (without DISCONNECT unless the bytes contained one) *)
+      let '(s1, o1) := feed s c b in
+      match conn_key (bs_br s1) c with
+      | Some _ => let '(br2, o2) := stop (bs_br s1) c in (mkBS br2 (bs_pend s1) (bs_buf s1), o1 ++ o2)
+      | None => (s1, o1)
+      end
   | 8 :: q :: ret :: tl :: rest =>
       (* Server.Publish of a message built with the setters (no packet identifier yet) *)
       let w1 := match pub_set_qos pub_new q with Some x => x | None => pub_new end in
@@ -116,6 +125,9 @@ Fixpoint b_run (s : bstate) (evs : list (list N)) : list (list N) :=
          broker before the connection is closed: only closures and in-process calls are compared *)
       let o' := match ev with
                 | [7] => filter (fun x => match x with OPkt _ _ => false | _ => true end) o
+                | 9 :: c :: _ =>
+                    (* nothing can be observed on a connection whose client has gone *)
+                    filter (fun x => match x with OPkt d _ | OClose d => negb (d =? c) | _ => true end) o
                 | _ => o
                 end in
       (0 :: canon o') :: b_run s' r
